@@ -19,7 +19,8 @@ THEOREMS = ['C12_floyd_path_inv', 'C12_retrieve_valid', 'C12_retrieve_empty_iff'
             'C12_nav_one_per_pair', 'C12_nav_returns', 'C12_nav_all_valid', 'C12_nav_success_ratio',
             'C12_nav_step_greedy']
 RULE = ('retrieve_shortest_path: all (s,t) on binary graphs (exhaustive all digraphs n<=3 quick / n<=4 thorough, all undirected '
-        'n<=4 / n<=5) and on structured/random families n<=8 with tie-heavy lengths {1,2},{1,2,3}, inv transform (dyadic exact and '
+        'n<=4 / n<=5) and on structured/random families n<=8 with tie-heavy lengths {1,2},{1,2,3}, lengths exact in binary64 where tolerance-based '
+        'comparisons go wrong ({1..4}*2^-40; near-ties 2^20-1..2^21+3 as integers and scaled by 2^-20; inv on weights 2^28..2^30), inv transform (dyadic exact and '
         '{1,2,3} tolerance), log transform on 2^-k; navigation_wu: undirected L with max_hops in {None,1,2,n}, directed L with '
         'max_hops in {1,2,n} (max_hops=None can loop forever on directed cycles: liveness is outside the property), D random '
         'symmetric integer nodal distances with ties (some asymmetric); non-trivial = at least one non-empty / successful path; '
@@ -106,7 +107,7 @@ def check_retrieve(ctx, bct, Wn, Lx, transform, case, exact, B_, tbl='0', trn=0,
 
 
 def do_lengths(ctx, bct, W, fam, B_, with_model=True):
-    case = {'kind': 'lengths', 'L': W}
+    case = {'kind': 'lengths', 'L': [[(x if isinstance(x, int) else str(x)) for x in row] for row in W]}
     ctx.count('retrieve:' + fam.split('+')[0]); ctx.count('retrieve:n=%d' % len(W))
     check_retrieve(ctx, bct, H3.npm(W), W, None, case, True, B_ if with_model else None, Wenc=enc_mat(W, enc_q))
 
@@ -276,9 +277,14 @@ def run(ctx):
                 do_lengths(ctx, bct, A, fam, B_)
                 for vals in ([1, 2], [1, 2, 3]):
                     do_lengths(ctx, bct, H3.weighted(ctx, A, vals), fam, B_)
+                if n >= 3:      # tiny dyadic scale / large near-ties (exact in binary64; tolerance-based comparisons go wrong there)
+                    sf, vals = H3.SCALE_FAMS[(rep + n + len(fam)) % 3]
+                    do_lengths(ctx, bct, H3.weighted(ctx, A, vals), sf, B_)
                 if n <= 7:
                     do_inv(ctx, bct, H3.weighted(ctx, A, [F(1), F(1, 2), F(1, 4)]), True, B_)
                     do_inv(ctx, bct, H3.weighted(ctx, A, [F(1), F(2), F(3)]), False, B_)
+                    if n >= 3 and (rep + n) % 2 == 0:      # lengths 1/w = 2^-30, 2^-29, 2^-28 (exact)
+                        do_inv(ctx, bct, H3.weighted(ctx, A, [F(2 ** 30), F(2 ** 29), F(2 ** 28)]), True, B_)
                     do_log(ctx, bct, H3.weighted(ctx, A, [F(1), F(1, 2), F(1, 4), F(1, 8)]), B_)
                 # ---- navigation
                 und = all(A[i][j] == A[j][i] for i in range(n) for j in range(n))
